@@ -24,6 +24,15 @@ Notation refines_of_cS := (refines_of_cS G C).
 Ltac leafs := repeat (first [ apply Forall2_nil | apply Forall2_cons; [apply ecl_cS; lia|] ]).
 Ltac oof_case := intros ? ? ?; left; reflexivity.
 
+(* uniform refinement: a fixed fuel overhead (what every expansion proof below establishes); it implies `refines`,
+   and is a congruence (EquivCong.v) *)
+Definition urefines (r1 r2 : rid) : Prop := exists k', forall k, cS (ecl k r1) (ecl (k + k') r2).
+Definition uequiv (r1 r2 : rid) : Prop := urefines r1 r2 /\ urefines r2 r1.
+Lemma urefines_refines r1 r2 : urefines r1 r2 -> refines r1 r2.
+Proof. intros [k' H]. apply (refines_of_cS 0 k'). exact H. Qed.
+Lemma uequiv_obs_equiv r1 r2 : uequiv r1 r2 -> obs_equiv r1 r2.
+Proof. intros [H1 H2]. split; apply urefines_refines; assumption. Qed.
+
 (* obs_equiv is an equivalence relation *)
 Lemma refines_refl r : refines r r.
 Proof. intros f d1 d2 c. exists f. apply ecl_cS. apply le_n. Qed.
@@ -47,18 +56,18 @@ Lemma Forall2_repeat {A B} (P : A -> B -> Prop) a b n : P a b -> Forall2 P (repe
 Proof. intros H. induction n; simpl; constructor; auto. Qed.
 
 (* ---------- rep< N, R >  ==  seq< R, ..., R > ---------- *)
-Theorem rep_seq_table n r1 r2 r :
-  node r1 (HRep n) [r] -> node r2 HSeq (repeat r n) -> obs_equiv r1 r2.
+Theorem rep_seq_utable n r1 r2 r :
+  node r1 (HRep n) [r] -> node r2 HSeq (repeat r n) -> uequiv r1 r2.
 Proof.
   intros N1 N2. split.
-  - apply (refines_of_cS 0 0). intros [|k]; [oof_case|]. rewrite Nat.add_0_r.
+  - exists 0. intros [|k]; [oof_case|]. rewrite Nat.add_0_r.
     apply cS_trans with (g := c_rep C n (ecl k r)).
     { apply (node_l k 0 r1 (HRep n) [r]); [exact N1 | reflexivity | leafs | left; reflexivity]. }
     apply cS_trans with (g := c_seq C (repeat (ecl k r) n)).
     { intros d1 d2 c. apply rep_seq_A; [apply ecl_cS; lia | apply ecl_crest]. }
     apply (node_r k 0 r2 HSeq (repeat r n)); [exact N2 | reflexivity | | left; reflexivity | discriminate].
     apply Forall2_repeat. apply ecl_cS; lia.
-  - apply (refines_of_cS 0 0). intros [|k]; [oof_case|]. rewrite Nat.add_0_r.
+  - exists 0. intros [|k]; [oof_case|]. rewrite Nat.add_0_r.
     apply cS_trans with (g := c_seq C (repeat (ecl k r) n)).
     { apply (node_l k 0 r2 HSeq (repeat r n)); [exact N2 | reflexivity | | left; reflexivity].
       apply Forall2_repeat. apply ecl_cS; lia. }
@@ -66,13 +75,16 @@ Proof.
     { intros d1 d2 c. apply rep_seq_B; [apply ecl_cS; lia | apply ecl_crest]. }
     apply (node_r k 0 r1 (HRep n) [r]); [exact N1 | reflexivity | leafs | left; reflexivity | discriminate].
 Qed.
+Theorem rep_seq_table n r1 r2 r :
+  node r1 (HRep n) [r] -> node r2 HSeq (repeat r n) -> obs_equiv r1 r2.
+Proof. intros. apply uequiv_obs_equiv. eapply rep_seq_utable; eassumption. Qed.
 
 (* ---------- rep_opt< N, R >  ==  rep< N, opt< R > > ---------- *)
-Theorem rep_opt_table n r1 r2 o r :
-  node r1 (HRepOpt n) [r] -> node r2 (HRep n) [o] -> node o HPartial [r] -> obs_equiv r1 r2.
+Theorem rep_opt_utable n r1 r2 o r :
+  node r1 (HRepOpt n) [r] -> node r2 (HRep n) [o] -> node o HPartial [r] -> uequiv r1 r2.
 Proof.
   intros N1 N2 No. split.
-  - apply (refines_of_cS 0 1). intros [|k]; [oof_case|].
+  - exists 1. intros [|k]; [oof_case|].
     apply cS_trans with (g := c_rep_opt C n (ecl k r)).
     { apply (node_l k 0 r1 (HRepOpt n) [r]); [exact N1 | reflexivity | leafs | left; reflexivity]. }
     apply cS_trans with (g := c_rep C n (c_opt C (ecl k r))).
@@ -81,7 +93,7 @@ Proof.
     apply (node_r (S k) 0 r2 (HRep n) [o]); [exact N2 | reflexivity | | left; reflexivity | discriminate].
     constructor; [|constructor].
     apply (node_r k 0 o HPartial [r]); [exact No | reflexivity | leafs | left; reflexivity | discriminate].
-  - apply (refines_of_cS 0 0). intros [|[|k]]; [oof_case| |]; rewrite Nat.add_0_r.
+  - exists 0. intros [|[|k]]; [oof_case| |]; rewrite Nat.add_0_r.
     { apply cS_trans with (g := c_rep C n (ecl 0 o)).
       { apply (node_l 0 0 r2 (HRep n) [o]); [exact N2 | reflexivity | leafs | left; reflexivity]. }
       destruct n as [|n].
@@ -96,15 +108,18 @@ Proof.
     { intros d1 d2 c. apply rep_opt_B; [apply ecl_cS; lia | apply ecl_crest | apply ecl_crest]. }
     apply (node_r (S k) 0 r1 (HRepOpt n) [r]); [exact N1 | reflexivity | leafs | left; reflexivity | discriminate].
 Qed.
+Theorem rep_opt_table n r1 r2 o r :
+  node r1 (HRepOpt n) [r] -> node r2 (HRep n) [o] -> node o HPartial [r] -> obs_equiv r1 r2.
+Proof. intros. apply uequiv_obs_equiv. eapply rep_opt_utable; eassumption. Qed.
 
 (* ---------- rep_min_max< Min, Max, R >  ==  seq< rep< Min, R >, rep_opt< Max - Min, R >, not_at< R > > ---------- *)
-Theorem rep_min_max_table mn mx r1 r2 a b na r :
+Theorem rep_min_max_utable mn mx r1 r2 a b na r :
   node r1 (HRepMinMax mn mx) [r] ->
   node r2 HSeq [a; b; na] -> node a (HRep mn) [r] -> node b (HRepOpt (mx - mn)) [r] -> node na HNotAt [r] ->
-  obs_equiv r1 r2.
+  uequiv r1 r2.
 Proof.
   intros N1 N2 Na Nb Nna. split.
-  - apply (refines_of_cS 0 1). intros [|k]; [oof_case|].
+  - exists 1. intros [|k]; [oof_case|].
     apply cS_trans with (g := c_rep_min_max C mn mx (ecl k r)).
     { apply (node_l k 0 r1 (HRepMinMax mn mx) [r]); [exact N1 | reflexivity | leafs | left; reflexivity]. }
     apply cS_trans with (g := rmm_doc C mn mx (ecl k r)).
@@ -115,7 +130,7 @@ Proof.
     + apply (node_r k 0 a (HRep mn) [r]); [exact Na | reflexivity | leafs | left; reflexivity | discriminate].
     + apply (node_r k 0 b (HRepOpt (mx - mn)) [r]); [exact Nb | reflexivity | leafs | left; reflexivity | discriminate].
     + apply (node_r k 0 na HNotAt [r]); [exact Nna | reflexivity | leafs | left; reflexivity | discriminate].
-  - apply (refines_of_cS 0 0). intros [|[|k]]; [oof_case| |]; rewrite Nat.add_0_r.
+  - exists 0. intros [|[|k]]; [oof_case| |]; rewrite Nat.add_0_r.
     { apply cS_trans with (g := c_seq C [ecl 0 a; ecl 0 b; ecl 0 na]).
       { apply (node_l 0 0 r2 HSeq [a; b; na]); [exact N2 | reflexivity | leafs | left; reflexivity]. }
       intros d1 d2 c. left. reflexivity. }
@@ -129,13 +144,18 @@ Proof.
     { intros d1 d2 c. apply rep_min_max_B; [apply ecl_cS; lia | apply ecl_cS; lia | apply ecl_crest]. }
     apply (node_r (S k) 0 r1 (HRepMinMax mn mx) [r]); [exact N1 | reflexivity | leafs | left; reflexivity | discriminate].
 Qed.
+Theorem rep_min_max_table mn mx r1 r2 a b na r :
+  node r1 (HRepMinMax mn mx) [r] ->
+  node r2 HSeq [a; b; na] -> node a (HRep mn) [r] -> node b (HRepOpt (mx - mn)) [r] -> node na HNotAt [r] ->
+  obs_equiv r1 r2.
+Proof. intros. apply uequiv_obs_equiv. eapply rep_min_max_utable; eassumption. Qed.
 
 (* ---------- plus< R >  ==  seq< R, star< R > > ---------- *)
-Theorem plus_table r1 r2 st r :
-  node r1 HPlus [r] -> node r2 HSeq [r; st] -> node st HStarPartial [r] -> obs_equiv r1 r2.
+Theorem plus_utable r1 r2 st r :
+  node r1 HPlus [r] -> node r2 HSeq [r; st] -> node st HStarPartial [r] -> uequiv r1 r2.
 Proof.
   intros N1 N2 Nst. split.
-  - apply (refines_of_cS 0 1). intros [|k]; [oof_case|].
+  - exists 1. intros [|k]; [oof_case|].
     apply cS_trans with (g := c_plus C k (ecl k r)).
     { apply (node_l k k r1 HPlus [r]); [exact N1 | reflexivity | leafs | right; lia]. }
     apply cS_trans with (g := c_seq C [ecl k r; c_star C k (ecl k r)]).
@@ -144,7 +164,7 @@ Proof.
     apply (node_r (S k) 0 r2 HSeq [r; st]); [exact N2 | reflexivity | | left; reflexivity | discriminate].
     constructor; [apply ecl_cS; lia|]. constructor; [|constructor].
     apply (node_r k k st HStarPartial [r]); [exact Nst | reflexivity | leafs | right; lia | discriminate].
-  - apply (refines_of_cS 0 1). intros K.
+  - exists 1. intros K.
     assert (L : forall j q, j <= K -> cS (ecl j q) (ecl K q)) by (intros; apply ecl_cS; assumption).
     apply cS_trans with (g := c_seq C [ecl K r; c_star C K (ecl K r)]).
     { destruct K as [|k1]; [oof_case|].
@@ -158,6 +178,9 @@ Proof.
     replace (K + 1) with (S K) by lia.
     apply (node_r K K r1 HPlus [r]); [exact N1 | reflexivity | leafs | right; lia | discriminate].
 Qed.
+Theorem plus_table r1 r2 st r :
+  node r1 HPlus [r] -> node r2 HSeq [r; st] -> node st HStarPartial [r] -> obs_equiv r1 r2.
+Proof. intros. apply uequiv_obs_equiv. eapply plus_utable; eassumption. Qed.
 
 (* rep< 1, R > is R *)
 Lemma rep1_l (f g : closure) : cS f g -> crest g -> cS (c_rep C 1 f) g.
@@ -166,11 +189,11 @@ Lemma rep1_r (f g : closure) : cS f g -> crest f -> cS f (c_rep C 1 g).
 Proof. intros H Hr d1 d2 c. pose proof (rep_seq_B C f g H Hr 1 d1 d2 c) as K. rewrite c_seq_unfold in K. exact K. Qed.
 
 (* ---------- plus< R >  ==  rep_min< 1, R >  =  seq< rep< 1, R >, star< R > > ---------- *)
-Theorem plus_rep_min_table r1 r2 rp st r :
-  node r1 HPlus [r] -> node r2 HSeq [rp; st] -> node rp (HRep 1) [r] -> node st HStarPartial [r] -> obs_equiv r1 r2.
+Theorem plus_rep_min_utable r1 r2 rp st r :
+  node r1 HPlus [r] -> node r2 HSeq [rp; st] -> node rp (HRep 1) [r] -> node st HStarPartial [r] -> uequiv r1 r2.
 Proof.
   intros N1 N2 Nrp Nst. split.
-  - apply (refines_of_cS 0 1). intros [|k]; [oof_case|].
+  - exists 1. intros [|k]; [oof_case|].
     apply cS_trans with (g := c_plus C k (ecl k r)).
     { apply (node_l k k r1 HPlus [r]); [exact N1 | reflexivity | leafs | right; lia]. }
     apply cS_trans with (g := c_seq C [ecl k r; c_star C k (ecl k r)]).
@@ -181,7 +204,7 @@ Proof.
     + apply cS_trans with (g := c_rep C 1 (ecl k r)); [apply rep1_r; [apply ecl_cS; lia | apply ecl_crest]|].
       apply (node_r k 0 rp (HRep 1) [r]); [exact Nrp | reflexivity | leafs | left; reflexivity | discriminate].
     + apply (node_r k k st HStarPartial [r]); [exact Nst | reflexivity | leafs | right; lia | discriminate].
-  - apply (refines_of_cS 0 1). intros K.
+  - exists 1. intros K.
     assert (L : forall j q, j <= K -> cS (ecl j q) (ecl K q)) by (intros; apply ecl_cS; assumption).
     apply cS_trans with (g := c_seq C [ecl K r; c_star C K (ecl K r)]).
     { destruct K as [|k1]; [oof_case|].
@@ -198,13 +221,16 @@ Proof.
     replace (K + 1) with (S K) by lia.
     apply (node_r K K r1 HPlus [r]); [exact N1 | reflexivity | leafs | right; lia | discriminate].
 Qed.
+Theorem plus_rep_min_table r1 r2 rp st r :
+  node r1 HPlus [r] -> node r2 HSeq [rp; st] -> node rp (HRep 1) [r] -> node st HStarPartial [r] -> obs_equiv r1 r2.
+Proof. intros. apply uequiv_obs_equiv. eapply plus_rep_min_utable; eassumption. Qed.
 
 (* ---------- opt< R >  ==  sor< R, success > ---------- *)
-Theorem opt_sor_table r1 r2 su r :
-  node r1 HPartial [r] -> node r2 HSor [r; su] -> node su HSuccess [] -> obs_equiv r1 r2.
+Theorem opt_sor_utable r1 r2 su r :
+  node r1 HPartial [r] -> node r2 HSor [r; su] -> node su HSuccess [] -> uequiv r1 r2.
 Proof.
   intros N1 N2 Nsu. split.
-  - apply (refines_of_cS 0 1). intros [|k]; [oof_case|].
+  - exists 1. intros [|k]; [oof_case|].
     apply cS_trans with (g := c_opt C (ecl k r)).
     { apply (node_l k 0 r1 HPartial [r]); [exact N1 | reflexivity | leafs | left; reflexivity]. }
     apply cS_trans with (g := c_sor C [ecl k r; c_success C]).
@@ -213,7 +239,7 @@ Proof.
     apply (node_r (S k) 0 r2 HSor [r; su]); [exact N2 | reflexivity | | left; reflexivity | discriminate].
     constructor; [apply ecl_cS; lia|]. constructor; [|constructor].
     apply (node_r k 0 su HSuccess [] []); [exact Nsu | reflexivity | constructor | left; reflexivity | discriminate].
-  - apply (refines_of_cS 0 0). intros [|[|k]]; [oof_case| |]; rewrite Nat.add_0_r.
+  - exists 0. intros [|[|k]]; [oof_case| |]; rewrite Nat.add_0_r.
     { apply cS_trans with (g := c_sor C [ecl 0 r; ecl 0 su]).
       { apply (node_l 0 0 r2 HSor [r; su]); [exact N2 | reflexivity | leafs | left; reflexivity]. }
       intros d1 d2 c. left. reflexivity. }
@@ -225,6 +251,9 @@ Proof.
     { intros d1 d2 c. apply opt_sor_B. apply ecl_cS; lia. }
     apply (node_r (S k) 0 r1 HPartial [r]); [exact N1 | reflexivity | leafs | left; reflexivity | discriminate].
 Qed.
+Theorem opt_sor_table r1 r2 su r :
+  node r1 HPartial [r] -> node r2 HSor [r; su] -> node su HSuccess [] -> obs_equiv r1 r2.
+Proof. intros. apply uequiv_obs_equiv. eapply opt_sor_utable; eassumption. Qed.
 
 Lemma F2_map_l j k (rs : list rid) : j <= k -> Forall2 (fun q f => cS (ecl j q) f) rs (map (ecl k) rs).
 Proof. intros H. induction rs; simpl; constructor; [apply ecl_cS; exact H | assumption]. Qed.
@@ -234,11 +263,11 @@ Lemma F2_map_cS j k (rs : list rid) : j <= k -> Forall2 cS (map (ecl j) rs) (map
 Proof. intros H. induction rs; simpl; constructor; [apply ecl_cS; exact H | assumption]. Qed.
 
 (* ---------- partial< R1, Rs... >  ==  opt< seq< R1, partial< Rs... > > > ---------- *)
-Theorem partial_table p p2 sq p' q1 qs :
-  node p HPartial (q1 :: qs) -> node p2 HPartial [sq] -> node sq HSeq [q1; p'] -> node p' HPartial qs -> obs_equiv p p2.
+Theorem partial_utable p p2 sq p' q1 qs :
+  node p HPartial (q1 :: qs) -> node p2 HPartial [sq] -> node sq HSeq [q1; p'] -> node p' HPartial qs -> uequiv p p2.
 Proof.
   intros N1 N2 Nsq Np'. split.
-  - apply (refines_of_cS 0 2). intros [|k]; [oof_case|].
+  - exists 2. intros [|k]; [oof_case|].
     apply cS_trans with (g := c_partial C (ecl k q1 :: map (ecl k) qs)).
     { apply (node_l k 0 p HPartial (q1 :: qs)); [exact N1 | reflexivity | apply (F2_map_l k k (q1 :: qs)); lia | left; reflexivity]. }
     apply cS_trans with (g := c_opt C (c_seq C [ecl k q1; c_partial C (map (ecl k) qs)])).
@@ -249,7 +278,7 @@ Proof.
     apply (node_r (S k) 0 sq HSeq [q1; p']); [exact Nsq | reflexivity | | left; reflexivity | discriminate].
     constructor; [apply ecl_cS; lia|]. constructor; [|constructor].
     apply (node_r k 0 p' HPartial qs); [exact Np' | reflexivity | apply F2_map_r; lia | left; reflexivity | discriminate].
-  - apply (refines_of_cS 0 1). intros K.
+  - exists 1. intros K.
     assert (L : forall j q, j <= K -> cS (ecl j q) (ecl K q)) by (intros; apply ecl_cS; assumption).
     apply cS_trans with (g := c_opt C (c_seq C [ecl K q1; c_partial C (map (ecl K) qs)])).
     { destruct K as [|k1]; [oof_case|].
@@ -263,13 +292,16 @@ Proof.
     replace (K + 1) with (S K) by lia.
     apply (node_r K 0 p HPartial (q1 :: qs)); [exact N1 | reflexivity | apply (F2_map_r K K (q1 :: qs)); lia | left; reflexivity | discriminate].
 Qed.
+Theorem partial_table p p2 sq p' q1 qs :
+  node p HPartial (q1 :: qs) -> node p2 HPartial [sq] -> node sq HSeq [q1; p'] -> node p' HPartial qs -> obs_equiv p p2.
+Proof. intros. apply uequiv_obs_equiv. eapply partial_utable; eassumption. Qed.
 
 (* ---------- until< R >  ==  until< R, any > ---------- *)
-Theorem until1_table r1 r2 cnd a :
-  node r1 HUntil1 [cnd] -> node r2 HUntil2 [cnd; a] -> node a (HAny PkChar) [] -> obs_equiv r1 r2.
+Theorem until1_utable r1 r2 cnd a :
+  node r1 HUntil1 [cnd] -> node r2 HUntil2 [cnd; a] -> node a (HAny PkChar) [] -> uequiv r1 r2.
 Proof.
   intros N1 N2 Na. split.
-  - apply (refines_of_cS 0 1). intros [|k]; [oof_case|].
+  - exists 1. intros [|k]; [oof_case|].
     apply cS_trans with (g := c_until1 C k (ecl k cnd)).
     { apply (node_l k k r1 HUntil1 [cnd]); [exact N1 | reflexivity | leafs | right; lia]. }
     apply cS_trans with (g := c_until2 C k (ecl k cnd) (c_any C)).
@@ -278,7 +310,7 @@ Proof.
     apply (node_r (S k) k r2 HUntil2 [cnd; a]); [exact N2 | reflexivity | | right; lia | discriminate].
     constructor; [apply ecl_cS; lia|]. constructor; [|constructor].
     apply (node_r k 0 a (HAny PkChar) [] []); [exact Na | reflexivity | constructor | left; reflexivity | discriminate].
-  - apply (refines_of_cS 0 1). intros K.
+  - exists 1. intros K.
     assert (L : forall j q, j <= K -> cS (ecl j q) (ecl K q)) by (intros; apply ecl_cS; assumption).
     apply cS_trans with (g := c_until2 C K (ecl K cnd) (c_any C)).
     { destruct K as [|k1]; [oof_case|].
@@ -290,13 +322,16 @@ Proof.
     replace (K + 1) with (S K) by lia.
     apply (node_r K K r1 HUntil1 [cnd]); [exact N1 | reflexivity | leafs | right; lia | discriminate].
 Qed.
+Theorem until1_table r1 r2 cnd a :
+  node r1 HUntil1 [cnd] -> node r2 HUntil2 [cnd; a] -> node a (HAny PkChar) [] -> obs_equiv r1 r2.
+Proof. intros. apply uequiv_obs_equiv. eapply until1_utable; eassumption. Qed.
 
 (* ---------- strict< R1, Rs... >  ==  sor< not_at< R1 >, seq< R1, Rs... > >  (any number of rules) ---------- *)
-Theorem strict_table r1 r2 na sq q1 qs :
-  node r1 HStrict (q1 :: qs) -> node r2 HSor [na; sq] -> node na HNotAt [q1] -> node sq HSeq (q1 :: qs) -> obs_equiv r1 r2.
+Theorem strict_utable r1 r2 na sq q1 qs :
+  node r1 HStrict (q1 :: qs) -> node r2 HSor [na; sq] -> node na HNotAt [q1] -> node sq HSeq (q1 :: qs) -> uequiv r1 r2.
 Proof.
   intros N1 N2 Nna Nsq. split.
-  - apply (refines_of_cS 0 1). intros [|k]; [oof_case|].
+  - exists 1. intros [|k]; [oof_case|].
     apply cS_trans with (g := c_strict C (ecl k q1 :: map (ecl k) qs)).
     { apply (node_l k 0 r1 HStrict (q1 :: qs)); [exact N1 | reflexivity | apply (F2_map_l k k (q1 :: qs)); lia | left; reflexivity]. }
     apply cS_trans with (g := c_sor C [c_not C (ecl k q1); c_seq C (ecl k q1 :: map (ecl k) qs)]).
@@ -306,7 +341,7 @@ Proof.
     constructor; [|constructor; [|constructor]].
     + apply (node_r k 0 na HNotAt [q1]); [exact Nna | reflexivity | leafs | left; reflexivity | discriminate].
     + apply (node_r k 0 sq HSeq (q1 :: qs)); [exact Nsq | reflexivity | apply (F2_map_r k k (q1 :: qs)); lia | left; reflexivity | discriminate].
-  - apply (refines_of_cS 0 1). intros K.
+  - exists 1. intros K.
     assert (L : forall j q, j <= K -> cS (ecl j q) (ecl K q)) by (intros; apply ecl_cS; assumption).
     apply cS_trans with (g := c_sor C [c_not C (ecl K q1); c_seq C (ecl K q1 :: map (ecl K) qs)]).
     { destruct K as [|k1]; [oof_case|].
@@ -321,14 +356,17 @@ Proof.
     replace (K + 1) with (S K) by lia.
     apply (node_r K 0 r1 HStrict (q1 :: qs)); [exact N1 | reflexivity | apply (F2_map_r K K (q1 :: qs)); lia | left; reflexivity | discriminate].
 Qed.
+Theorem strict_table r1 r2 na sq q1 qs :
+  node r1 HStrict (q1 :: qs) -> node r2 HSor [na; sq] -> node na HNotAt [q1] -> node sq HSeq (q1 :: qs) -> obs_equiv r1 r2.
+Proof. intros. apply uequiv_obs_equiv. eapply strict_utable; eassumption. Qed.
 
 (* ---------- star_strict< R1, Rs... >  ==  seq< star< seq< R1, Rs... > >, not_at< R1 > > ---------- *)
-Theorem star_strict_table r1 r2 st sq na q1 qs :
+Theorem star_strict_utable r1 r2 st sq na q1 qs :
   node r1 HStarStrict (q1 :: qs) ->
-  node r2 HSeq [st; na] -> node st HStarPartial [sq] -> node sq HSeq (q1 :: qs) -> node na HNotAt [q1] -> obs_equiv r1 r2.
+  node r2 HSeq [st; na] -> node st HStarPartial [sq] -> node sq HSeq (q1 :: qs) -> node na HNotAt [q1] -> uequiv r1 r2.
 Proof.
   intros N1 N2 Nst Nsq Nna. split.
-  - apply (refines_of_cS 0 2). intros [|k]; [oof_case|].
+  - exists 2. intros [|k]; [oof_case|].
     apply cS_trans with (g := c_star_strict C k (ecl k q1 :: map (ecl k) qs)).
     { apply (node_l k k r1 HStarStrict (q1 :: qs)); [exact N1 | reflexivity | apply (F2_map_l k k (q1 :: qs)); lia | right; lia]. }
     apply cS_trans with (g := ss_doc C k (ecl k q1) (map (ecl k) qs)).
@@ -340,7 +378,7 @@ Proof.
       constructor; [|constructor].
       apply (node_r k 0 sq HSeq (q1 :: qs)); [exact Nsq | reflexivity | apply (F2_map_r k k (q1 :: qs)); lia | left; reflexivity | discriminate].
     + apply (node_r (S k) 0 na HNotAt [q1]); [exact Nna | reflexivity | leafs | left; reflexivity | discriminate].
-  - apply (refines_of_cS 0 1). intros K.
+  - exists 1. intros K.
     assert (L : forall j q, j <= K -> cS (ecl j q) (ecl K q)) by (intros; apply ecl_cS; assumption).
     apply cS_trans with (g := ss_doc C K (ecl K q1) (map (ecl K) qs)).
     { unfold ss_doc. destruct K as [|k1]; [oof_case|].
@@ -357,15 +395,19 @@ Proof.
     replace (K + 1) with (S K) by lia.
     apply (node_r K K r1 HStarStrict (q1 :: qs)); [exact N1 | reflexivity | apply (F2_map_r K K (q1 :: qs)); lia | right; lia | discriminate].
 Qed.
+Theorem star_strict_table r1 r2 st sq na q1 qs :
+  node r1 HStarStrict (q1 :: qs) ->
+  node r2 HSeq [st; na] -> node st HStarPartial [sq] -> node sq HSeq (q1 :: qs) -> node na HNotAt [q1] -> obs_equiv r1 r2.
+Proof. intros. apply uequiv_obs_equiv. eapply star_strict_utable; eassumption. Qed.
 
 (* ---------- list_tail< R, S > = seq< R, star_partial< S, R > >  ==  seq< list< R, S >, opt< S > > ---------- *)
-Theorem list_tail_table r1 sp r2 li st sq os r s :
+Theorem list_tail_utable r1 sp r2 li st sq os r s :
   node r1 HSeq [r; sp] -> node sp HStarPartial [s; r] ->
   node r2 HSeq [li; os] -> node li HSeq [r; st] -> node st HStarPartial [sq] -> node sq HSeq [s; r] -> node os HPartial [s] ->
-  obs_equiv r1 r2.
+  uequiv r1 r2.
 Proof.
   intros N1 Nsp N2 Nli Nst Nsq Nos. split.
-  - apply (refines_of_cS 0 4). intros K.
+  - exists 4. intros K.
     assert (L : forall j q, j <= K -> cS (ecl j q) (ecl K q)) by (intros; apply ecl_cS; assumption).
     apply cS_trans with (g := lt_impl C K (ecl K r) (ecl K s)).
     { unfold lt_impl. destruct K as [|k1]; [oof_case|].
@@ -384,7 +426,7 @@ Proof.
       constructor; [|constructor].
       apply (node_r K 0 sq HSeq [s; r]); [exact Nsq | reflexivity | leafs | left; reflexivity | discriminate].
     + apply (node_r (S (S K)) 0 os HPartial [s]); [exact Nos | reflexivity | leafs | left; reflexivity | discriminate].
-  - apply (refines_of_cS 0 2). intros K.
+  - exists 2. intros K.
     assert (L : forall j q, j <= K -> cS (ecl j q) (ecl K q)) by (intros; apply ecl_cS; assumption).
     apply cS_trans with (g := lt_doc C K (ecl K r) (ecl K s)).
     { unfold lt_doc. destruct K as [|k1]; [oof_case|].
@@ -406,6 +448,11 @@ Proof.
     constructor; [apply ecl_cS; lia|]. constructor; [|constructor].
     apply (node_r K K sp HStarPartial [s; r]); [exact Nsp | reflexivity | leafs | right; lia | discriminate].
 Qed.
+Theorem list_tail_table r1 sp r2 li st sq os r s :
+  node r1 HSeq [r; sp] -> node sp HStarPartial [s; r] ->
+  node r2 HSeq [li; os] -> node li HSeq [r; st] -> node st HStarPartial [sq] -> node sq HSeq [s; r] -> node os HPartial [s] ->
+  obs_equiv r1 r2.
+Proof. intros. apply uequiv_obs_equiv. eapply list_tail_utable; eassumption. Qed.
 
 (* ---------- until< R, S1, S2... >  (rule_t until< R, seq< S... > >)  ==  seq< star< not_at< R >, S1, S2... >, R > ---------- *)
 Lemma c_not_self (f g : closure) : cS f g -> cS (c_not C f) (c_not C g).
@@ -414,13 +461,13 @@ Proof.
   constructor; [exact H | constructor].
 Qed.
 
-Theorem until_pack_table r1 sq1 r2 st sq2 na cnd s ss :
+Theorem until_pack_utable r1 sq1 r2 st sq2 na cnd s ss :
   node r1 HUntil2 [cnd; sq1] -> node sq1 HSeq (s :: ss) ->
   node r2 HSeq [st; cnd] -> node st HStarPartial [sq2] -> node sq2 HSeq (na :: s :: ss) -> node na HNotAt [cnd] ->
-  obs_equiv r1 r2.
+  uequiv r1 r2.
 Proof.
   intros N1 Nsq1 N2 Nst Nsq2 Nna. split.
-  - apply (refines_of_cS 0 3). intros [|[|k]]; [oof_case| |].
+  - exists 3. intros [|[|k]]; [oof_case| |].
     { apply cS_trans with (g := u2_impl C 0 (ecl 0 cnd) (ecl 0 sq1)).
       { apply (node_l 0 0 r1 HUntil2 [cnd; sq1]); [exact N1 | reflexivity | leafs | right; lia]. }
       intros d1 d2 c. left. reflexivity. }
@@ -445,7 +492,7 @@ Proof.
     apply (node_r (S (S k)) 0 sq2 HSeq (na :: s :: ss)); [exact Nsq2 | reflexivity | | left; reflexivity | discriminate].
     constructor; [|apply (F2_map_r k (S (S k)) (s :: ss)); lia].
     apply (node_r (S k) 0 na HNotAt [cnd]); [exact Nna | reflexivity | leafs | left; reflexivity | discriminate].
-  - apply (refines_of_cS 0 2). intros K.
+  - exists 2. intros K.
     assert (L : forall j q, j <= K -> cS (ecl j q) (ecl K q)) by (intros; apply ecl_cS; assumption).
     set (gc := ecl K cnd). set (GS := map (ecl K) (s :: ss)).
     apply cS_trans with (g := c_seq C [c_star C K (c_seq C (c_not C gc :: GS)); gc]).
@@ -473,5 +520,10 @@ Proof.
     replace (K + 2) with (S (S K)) by lia.
     apply (node_r (S K) (S K) r1 HUntil2 [cnd; sq1]); [exact N1 | reflexivity | leafs | right; lia | discriminate].
 Qed.
+Theorem until_pack_table r1 sq1 r2 st sq2 na cnd s ss :
+  node r1 HUntil2 [cnd; sq1] -> node sq1 HSeq (s :: ss) ->
+  node r2 HSeq [st; cnd] -> node st HStarPartial [sq2] -> node sq2 HSeq (na :: s :: ss) -> node na HNotAt [cnd] ->
+  obs_equiv r1 r2.
+Proof. intros. apply uequiv_obs_equiv. eapply until_pack_utable; eassumption. Qed.
 
 End Table2.
